@@ -10,6 +10,7 @@ use std::io::Write;
 pub mod signer;
 pub mod scenario;
 pub mod reqgen;
+pub mod refiso;
 
 /// SplitMix64: every random choice of a run derives from one state seeded by VERIF_SEED.
 #[derive(Clone)]
